@@ -2,6 +2,7 @@
 
 pub mod case;
 pub mod cost;
+pub mod enumerate;
 pub mod fault;
 pub mod gen;
 pub mod interp;
